@@ -146,7 +146,7 @@ func kindsOf(cs []CtlSpec) []string {
 func TestC14Req(t *testing.T) {
 	lab.Prop[c14ReqCase]{
 		ID: "C14", Part: "request",
-		Rule: "rapid: 0..6 controls of all kinds (page sizes 0..2^32-1, any cookies, grace/expire 0..2^31-1, error 0..8, any int64 VChu expiry, both criticalities, arbitrary OIDs/values, duplicates, any order) attached to Bind/Search/Modify/Add/Delete, each control encoded by one of three encoders (independent RFC-shape encoder, gldap's own Encode, go-ldap's Encode where usable) and decoded by the server's request path; oracle = same Go type and fields in the handler's Controls slice, in order; non-trivial = >= 2 controls or a non-default field value; distinct by hash of the bytes",
+		Rule: "rapid: 0..6 controls of all kinds (page sizes 0..2^32-1, any cookies, grace/expire 0..2^31-1, error 0..8, any int64 VChu expiry - one in three written with 1..12 leading zeros by the independent encoder -, both criticalities, arbitrary OIDs/values, duplicates, any order) attached to Bind/Search/Modify/Add/Delete, each control encoded by one of three encoders (independent RFC-shape encoder, gldap's own Encode, go-ldap's Encode where usable) and decoded by the server's request path; oracle = same Go type and fields in the handler's Controls slice, in order; non-trivial = >= 2 controls or a non-default field value; distinct by hash of the bytes",
 		Gen: func(t *rapid.T) c14ReqCase {
 			kind := rapid.SampledFrom([]string{"bind", "search", "modify", "add", "delete"}).Draw(t, "kind")
 			r := genReq(kind, false).Draw(t, "req")
